@@ -109,7 +109,7 @@ LawsOf(x, y) ==
   /\ (SubsetEq(x, y) /\ SubsetEq(y, x)) = Eq(x, y)
   /\ Not(Null) = Elems
   /\ \A i \in Elems : Get(SetBit(x, i, TRUE), i) /\ ~Get(SetBit(x, i, FALSE), i)
-  /\ \A i \in Elems : \A j \in Elems \ {i} : \A b \in BOOLEAN : Get(SetBit(x, i, b), j) = Get(x, j)
+  /\ \A i \in Elems : \A b \in BOOLEAN : SetBit(x, i, b) \ {i} = x \ {i}    \* frame: other bits untouched
   /\ InitBy([i \in Elems |-> Get(x, i)]) = x
   /\ Cardinality(Not(x)) = N - Cardinality(x)
 
